@@ -148,8 +148,8 @@ def rules_order(run):
                       'something is applied / consumed before the decision phase finished', c)
 
 
-def rules_pairs(run):
-    r = run.rule('C04.3', 'the check ranges over all unordered pairs; NonDeterminismError iff the LCA of the two sources is not orthogonal; '
+def rules_pairs(run, rid='C04.3'):
+    r = run.rule(rid, 'the check ranges over all unordered pairs; NonDeterminismError iff the LCA of the two sources is not orthogonal; '
                           'ConflictingTransitionsError iff a (non-internal) target lies outside the subtree of the LCA child, for both members')
     prog = run.prog
     fi = run.fn('Interpreter._sort_transitions')
